@@ -224,7 +224,7 @@ class Dep:
 
     def __init__(self, e, lo, hi):
         self.e, self.lo, self.hi = e, lo, hi
-        self.key = e.hash()
+        self.key = e.sexpr()
 
 
 class SymFloat:
@@ -309,65 +309,106 @@ class SymFloat:
         return self.map(lambda a: -a)
 
     # ---- comparisons -------------------------------------------------------------------------
-    def _table(self, deps, pred):
-        """z3 Bool: disjunction over the dependency assignments satisfying pred(vals) -> bool | z3 Bool."""
-        if not deps:
-            r = pred(())
-            return z3.BoolVal(r) if isinstance(r, bool) else r
+    _CACHE = {}
+
+    @staticmethod
+    def _assignments(deps):
         size = 1
         for d in deps:
             size *= (d.hi - d.lo + 1)
         if size > MAX_TABLE:
             raise HarnessError("SymFloat comparison table too large (%d)" % size)
-        cur().tick(size)
-        cases = []
-        errs = []
-        for vals in itertools.product(*[range(d.lo, d.hi + 1) for d in deps]):
+        return size, itertools.product(*[range(d.lo, d.hi + 1) for d in deps])
+
+    def _table(self, deps, pred, cache_key=None):
+        """z3 Bool: disjunction over the dependency assignments satisfying pred(vals) -> bool | z3 Bool."""
+        if not deps:
+            r = pred(())
+            return z3.BoolVal(r) if isinstance(r, bool) else r
+        size, it = SymFloat._assignments(deps)
+        cur().tick(max(1, size // 8))
+        results, errs = [], []
+        for vals in it:
             try:
-                r = pred(vals)
+                results.append((vals, pred(vals)))
             except ZeroDivisionError:
                 errs.append(vals)
-                continue
-            if r is False:
-                continue
-            guard = [d.e == v for d, v in zip(deps, vals)]
-            if r is not True:
-                guard.append(r)
-            cases.append(z3.And(guard) if len(guard) != 1 else guard[0])
         if errs:
             bad = z3.Or([z3.And([d.e == v for d, v in zip(deps, vals)]) for vals in errs])
             if cur().sat(bad):
                 raise ZeroDivisionError("float division by zero (symbolic)")
-        return z3.Or(cases) if cases else z3.BoolVal(False)
+        key = None
+        if cache_key is not None and all(isinstance(r, bool) for _, r in results):
+            key = (cache_key, tuple(d.key for d in deps), tuple(d.lo for d in deps), tuple(r for _, r in results))
+            hit = SymFloat._CACHE.get(key)
+            if hit is not None:
+                return hit
+        n_true = sum(1 for _, r in results if r is True)
+        n_false = sum(1 for _, r in results if r is False)
+        if n_true + n_false == len(results) and n_false < n_true:
+            # complement form is smaller
+            cases = [self._guard(deps, vals) for vals, r in results if r is False]
+            expr = z3.Not(z3.Or(cases)) if cases else z3.BoolVal(True)
+            # assignments outside the declared ranges are excluded by the range constraints of the variables
+        else:
+            cases = []
+            for vals, r in results:
+                if r is False:
+                    continue
+                g = self._guard(deps, vals)
+                cases.append(g if r is True else z3.And(g, r))
+            expr = z3.Or(cases) if cases else z3.BoolVal(False)
+        if key is not None:
+            SymFloat._CACHE[key] = expr
+        return expr
 
-    def _cmp(self, o, op, zop):
+    @staticmethod
+    def _guard(deps, vals):
+        if len(deps) == 1:
+            return deps[0].e == vals[0]
+        return z3.And([d.e == v for d, v in zip(deps, vals)])
+
+    def _cmp(self, o, op, zop, name="?"):
         if isinstance(o, SymReal):
             fn = self.fn
-            return fork(self._table(self.deps, lambda vals: zop(q(fn(vals)), o.e)))
+            tkey = str(o.e)
+            size, it = SymFloat._assignments(self.deps) if self.deps else (1, [()])
+            fvals = []
+            for vals in it:
+                try:
+                    fvals.append(fn(vals))
+                except ZeroDivisionError:
+                    fvals.append(None)
+            key = ("R", name, tkey, tuple(d.key for d in self.deps), tuple(d.lo for d in self.deps), tuple(fvals))
+            expr = SymFloat._CACHE.get(key)
+            if expr is None:
+                expr = self._table(self.deps, lambda vals: zop(q(fn(vals)), o.e))
+                SymFloat._CACHE[key] = expr
+            return fork(expr)
         o2 = SymFloat.lift(o)
         if o2 is None:
             return NotImplemented
         deps, p1, p2 = self._merge(o2)
         f1, f2 = self.fn, o2.fn
-        return fork(self._table(deps, lambda vals: bool(op(f1(p1(vals)), f2(p2(vals))))))
+        return fork(self._table(deps, lambda vals: bool(op(f1(p1(vals)), f2(p2(vals)))), cache_key="B"))
 
     def __lt__(self, o):
-        return self._cmp(o, lambda a, b: a < b, lambda a, b: a < b)
+        return self._cmp(o, lambda a, b: a < b, lambda a, b: a < b, '<')
 
     def __le__(self, o):
-        return self._cmp(o, lambda a, b: a <= b, lambda a, b: a <= b)
+        return self._cmp(o, lambda a, b: a <= b, lambda a, b: a <= b, '<=')
 
     def __gt__(self, o):
-        return self._cmp(o, lambda a, b: a > b, lambda a, b: a > b)
+        return self._cmp(o, lambda a, b: a > b, lambda a, b: a > b, '>')
 
     def __ge__(self, o):
-        return self._cmp(o, lambda a, b: a >= b, lambda a, b: a >= b)
+        return self._cmp(o, lambda a, b: a >= b, lambda a, b: a >= b, '>=')
 
     def __eq__(self, o):
-        return self._cmp(o, lambda a, b: a == b, lambda a, b: a == b)
+        return self._cmp(o, lambda a, b: a == b, lambda a, b: a == b, '==')
 
     def __ne__(self, o):
-        return self._cmp(o, lambda a, b: a != b, lambda a, b: a != b)
+        return self._cmp(o, lambda a, b: a != b, lambda a, b: a != b, '!=')
 
     def __bool__(self):
         return self.__ne__(0)
